@@ -28,6 +28,54 @@ pub fn scenario_case(s: &Scenario, rec: &mut CaseRec) -> Result<(), String> {
     Ok(())
 }
 
+/// F3's scenario on a REAL block device (loop device, production binary): the chunks the scan finds on the device
+/// must not be fetched.
+fn loop_case(c: &crate::props::l2scen::L2Scen, dev: &crate::props::c14::LoopDev, rec: &mut CaseRec) -> Result<(), String> {
+    use crate::gen::*;
+    let mut c = c.clone();
+    c.http = false;
+    c.verify_output = false;
+    if !crate::l2::cli_expressible(&c.scen.cfg.chunker) {
+        rec.excluded = Some("not_cli_expressible".into());
+        return Ok(());
+    }
+    // device content = the scenario's prior output padded with random bytes to the device size
+    let source = expand(&c.scen.source);
+    let dev_len = dev.read().map(|d| d.len()).unwrap_or(0);
+    if source.len() > dev_len {
+        rec.excluded = Some("source_larger_than_device".into());
+        return Ok(());
+    }
+    let mut content = c.scen.prior.as_ref().map(|r| related_bytes(&source, r)).unwrap_or_default();
+    content.truncate(dev_len);
+    let pad = dev_len - content.len();
+    SplitMix(pad as u64 ^ 0xD0).fill(&mut content, pad);
+    c.scen.prior = Some(Related::Unrelated(vec![Seg::Lit { bytes: content.clone() }]));
+    c.scen.inplace = true;
+    c.scen.block_dev = true;
+    let e = expectations(&c.scen);
+    if e.collision {
+        rec.excluded = Some("collision_guard".into());
+        return Ok(());
+    }
+    if !dev.write(&content) {
+        return Err("harness: cannot write to the loop device".into());
+    }
+    let o = crate::props::l2scen::execute_on("C06", &c, &e, None, None, Some(&dev.dev))?;
+    crate::props::c01::clean_dir(&crate::props::c01::worker_dir("C06"));
+    if !o.run.ok() {
+        return Err(format!("bita clone --seed-output onto a real block device failed: {}", o.run.describe()));
+    }
+    let out = o.output.as_ref().ok_or("cannot read the device back")?;
+    check_final_output(&c.scen, &e, out)?;
+    crate::props::l2scen::check_l2_reads(&e, &o, false)?;
+    classify_scenario(rec, &c.scen, &e);
+    rec.class("real_loop_device");
+    rec.level = Some("L2");
+    rec.nontrivial = !e.in_prior.is_empty();
+    Ok(())
+}
+
 impl Prop for C06 {
     fn id(&self) -> &'static str {
         "C06"
@@ -45,11 +93,34 @@ impl Prop for C06 {
         crate::props::l2scen::run_l2_variant(cx, "C06", t.pick(2400, 30000), scenario_strategy(8, true, true).boxed(), |_s, e, rec| {
             rec.nontrivial = !e.missing.is_empty() && e.missing.len() < e.src_keys.len();
         });
+        if cx.worker == 0 && std::env::var("VERIF_ONLY").map(|o| o.split(',').any(|v| v == "loopdev")).unwrap_or(true) {
+            let dir = crate::props::c01::worker_dir("C06");
+            let _ = std::fs::create_dir_all(&dir);
+            crate::props::c14::LoopDev::detach_stale(&format!("{}/target/work/C06", crate::engine::verif_root()));
+            match crate::props::c14::LoopDev::attach(&dir, "loop.img", 32 * 1024) {
+                Some(dev) => {
+                    let (w, nw) = (cx.worker, cx.nworkers);
+                    cx.worker = 0;
+                    cx.nworkers = 1;
+                    cx.run_prop("loopdev", t.pick(64, 1200), crate::props::l2scen::l2scen_strategy(scenario_strategy(8, true, false).boxed()), |c, rec| loop_case(c, &dev, rec));
+                    cx.worker = w;
+                    cx.nworkers = nw;
+                    cx.note("real loop device available: the 'loopdev' variant ran --seed-output clones onto /dev/loopN with the production binary");
+                }
+                None => cx.note("losetup could not attach a loop device: block devices were exercised through the cfg(oll3_bita_verif) hook only"),
+            }
+            let _ = std::fs::remove_dir_all(crate::props::c01::worker_dir("C06"));
+        }
     }
     fn replay(&self, _cx: &mut WorkerCtx, variant: &str, case: &Value) -> Result<(), String> {
         let mut rec = CaseRec::default();
         match variant {
             "l2" => crate::props::l2scen::replay_l2("C06", case, &mut rec),
+            "loopdev" => {
+                let dir = crate::props::c01::worker_dir("C06");
+                let Some(dev) = crate::props::c14::LoopDev::attach(&dir, "loop.img", 32 * 1024) else { return Err("[inconclusive] no loop device available".into()) };
+                loop_case(&serde_json::from_value(case.clone()).map_err(|e| e.to_string())?, &dev, &mut rec)
+            }
             _ => scenario_case(&serde_json::from_value(case.clone()).map_err(|e| e.to_string())?, &mut rec),
         }
     }
